@@ -2569,6 +2569,20 @@ class Processor:
                     ).format(segment_type, except_segment, type(value), value),
                     data=data
                 )
+
+                # Nothing but Hash keys and non-negative Array indexes can be
+                # built beneath a missing element.  Refuse any other
+                # continuation of the YAML Path before anything is added, lest
+                # the value be stored at the first missing element and the
+                # remaining segments then be evaluated within it.  A null is
+                # itself replaced by a new container for this segment.
+                if segment_type in [
+                        PathSegmentTypes.ANCHOR,
+                        PathSegmentTypes.INDEX,
+                        PathSegmentTypes.KEY]:
+                    Nodes.require_buildable_path(
+                        yaml_path, depth if data is None else depth + 1)
+
                 if (
                         data is None
                         and isinstance(parent, (dict, list))
